@@ -184,49 +184,51 @@ def removeCommon (s : Side) (a b : Expr) : Expr × Expr × Option Cluster :=
   | some v => (removeSubstring s v.length a, removeSubstring s v.length b, some v)
   | none => (a, b, none)
 
+/-- the literal-merging cases of `concatenate` for two non-empty operands -/
+def concatCore (e1 e2 : Expr) : Expr :=
+  match e1, e2 with
+  | lit ga, lit gb => lit (ga ++ gb)
+  | lit ga, cat (lit gf) second => cat (lit (ga ++ gf)) second
+  | cat first (lit gs), lit gb => cat first (lit (gs ++ gb))
+  | _, _ => cat e1 e2
+
 /-- `concatenate` -/
 def concatenate (a b : Option Expr) : Option Expr :=
   match a, b with
   | some e1, some e2 =>
     if e1.isEmpty then some e2
     else if e2.isEmpty then some e1
-    else match e1, e2 with
-      | lit ga, lit gb => some (lit (ga ++ gb))
-      | lit ga, cat (lit gf) second => some (cat (lit (ga ++ gf)) second)
-      | cat first (lit gs), lit gb => some (cat first (lit (gs ++ gb)))
-      | _, _ => some (cat e1 e2)
+    else some (concatCore e1 e2)
   | _, _ => none
+
+/-- the middle part of `union`, after the common prefix and suffix have been taken away -/
+def unionMid (cfg : Config) (e1 e2 : Expr) : Expr :=
+  if e1.isEmpty then rep e2 .question
+  else if e2.isEmpty then rep e1 .question
+  else match e1 with
+    | rep e .question => rep (newAlternation [e, e2]) .question
+    | _ => match e2 with
+      | rep e .question => rep (newAlternation [e1, e]) .question
+      | _ =>
+        if e1.isSingleCodepoint cfg && e2.isSingleCodepoint cfg
+        then newCharacterClass (extractCharSet e1) (extractCharSet e2)
+        else newAlternation [e1, e2]
+
+def wrapPre (pre : Option Cluster) (r : Expr) : Expr :=
+  match pre with
+  | some p => cat (lit p) r
+  | none => r
+
+def wrapSuf (suf : Option Cluster) (r : Expr) : Expr :=
+  match suf with
+  | some s => cat r (lit s)
+  | none => r
 
 /-- the body of `union` for two different expressions -/
 def unionCore (cfg : Config) (a b : Expr) : Expr :=
-  let (e1, e2, pre) := removeCommon .pre a b
-  let (e1, e2, suf) := removeCommon .suf e1 e2
-  let r0 : Option Expr :=
-    if e1.isEmpty then some (rep e2 .question)
-    else if e2.isEmpty then some (rep e1 .question)
-    else none
-  let r1 : Option Expr := match r0 with
-    | some r => some r
-    | none => match e1 with
-      | rep e .question => some (rep (newAlternation [e, e2]) .question)
-      | _ => none
-  let r2 : Option Expr := match r1 with
-    | some r => some r
-    | none => match e2 with
-      | rep e .question => some (rep (newAlternation [e1, e]) .question)
-      | _ => none
-  let r3 : Expr := match r2 with
-    | some r => r
-    | none =>
-      if e1.isSingleCodepoint cfg && e2.isSingleCodepoint cfg
-      then newCharacterClass (extractCharSet e1) (extractCharSet e2)
-      else newAlternation [e1, e2]
-  let r4 := match pre with
-    | some p => cat (lit p) r3
-    | none => r3
-  match suf with
-  | some s => cat r4 (lit s)
-  | none => r4
+  let r1 := removeCommon .pre a b
+  let r2 := removeCommon .suf r1.1 r1.2.1
+  wrapSuf r2.2.2 (wrapPre r1.2.2 (unionMid cfg r2.1 r2.2.1))
 
 /-- `union` -/
 def union (cfg : Config) (a b : Option Expr) : Option Expr :=
